@@ -155,6 +155,26 @@ def build(E):
     spec.event_contracts = {c.qual: c}
     spec.targets = [(c.qual, None)]
 
+    # the root the clauses above speak about is the directory the operator configured: __init__ (real body) stores the fully
+    # resolved location of its argument - so "inside the document root" compares resolved locations with a resolved location,
+    # whether the root was configured by its own path, through a symlink, relative or with '..' segments
+    def init_args(ctx):
+        E.fs_of(ctx)
+        h = ctx.alloc(H, {"__constructed__": True})
+        idx = ctx.alloc_list([VStr(z3.String("index_name_0")), VStr(z3.String("index_name_1"))])
+        return [h], {"document_root": VStr(z3.String("document_root_arg")), "default_indices": idx,
+                     "enable_directory_listing": VBool(z3.Bool("listing_enabled")), "max_file_size": VInt(z3.Int("max_file_size"))}
+
+    def init_post(ctx, old, a, outcome):
+        if outcome[0] != "return":
+            return None
+        r = root_of(ctx, a[0])
+        return z3.And(r == F.fs_resolve(z3.String("document_root_arg")), F.fs_resolve(r) == r)
+    c_init = Contract(f"{H}.__init__", make_args=init_args, ensures=[
+        ("[C02] the handler's document root is the fully resolved location of the configured directory (a root configured through a symlink, a relative path or '..' segments is the directory it denotes)", init_post)])
+    spec.event_contracts[c_init.qual] = c_init
+    spec.targets.append((c_init.qual, None))
+
     # decode() records what it decoded (for the body clause)
     base_decode = M["codec.decode"]
 
